@@ -116,6 +116,12 @@ fn cc_soft_cap_multiplier(conn: &SrtlaConnection) -> f64 {
     (headroom / cap_f).clamp(CC_SOFT_CAP_FLOOR, 1.0)
 }
 
+/// Verification hook (feature `verif-hooks`, off by default, add-only).
+#[cfg(feature = "verif-hooks")]
+pub fn verif_cc_soft_cap_multiplier(conn: &SrtlaConnection) -> f64 {
+    cc_soft_cap_multiplier(conn)
+}
+
 /// Select best connection using enhanced algorithm with quality awareness
 ///
 /// Returns the index of the connection with the best quality-adjusted score.
